@@ -913,6 +913,15 @@ class Repo:
         comp = self.method(ci, '_compile')
         base = {'pack': self.method(ci, 'pack'), 'unpack': self.method(ci, 'unpack')}
         out = []
+
+        def _binds(fi_):
+            return fi_ is not None and any(isinstance(n, ast.Attribute) and isinstance(n.ctx, ast.Store) and n.attr in ('pack', 'unpack')
+                                           and isinstance(n.value, ast.Name) and n.value.id == 'self' for n in ast.walk(fi_.node))
+        # a class that chooses its pack / unpack in its own constructor (and whose _compile does not):
+        # the constructor is the installer, its paths give the strategies
+        own_init = ci.methods.get('__init__')
+        if not _binds(comp) and _binds(own_init):
+            comp = own_init
         if comp is None:
             return [dict(guards=[], pack=base['pack'], unpack=base['unpack'], assigned=set())]
         w = Walker(None)
